@@ -194,6 +194,21 @@ pub fn concretisations(model_ids: &[u32], rng: &mut Rng, roots: bool) -> Vec<Con
     out
 }
 
+/// The name a record-level call passes; `tag` is the number of the call (every call passes a distinct name, so "first
+/// name wins" is observable).  Under the "borders" and "random" id layouts most names are DEGENERATE - empty, the missing-value
+/// marker "-" of the annotation files, a blank: a name is an arbitrary string and must not decide anything.
+pub fn rec_name(layout: &str, kind: Kind, x: u32, tag: u32) -> String {
+    if layout == "borders" || layout == "random" {
+        match tag % 4 {
+            0 => return String::new(),
+            1 => return "-".into(),
+            2 => return " ".into(),
+            _ => {}
+        }
+    }
+    format!("{}{}#{}", kind.name(), x, tag)
+}
+
 /// Build (Scenario, Expected) from a TLC REPLAY record under a concretisation.
 /// Record ids are used as they are (they are small and deliberately overlap across kinds).
 pub fn from_tlc(line: &Value, c: &Concretisation) -> (Scenario, Expected) {
@@ -212,7 +227,7 @@ pub fn from_tlc(line: &Value, c: &Concretisation) -> (Scenario, Expected) {
         let x = as_u32(&f["x"]);
         let term = f.get("t").and_then(|t| if t.is_null() { None } else { Some(c.get(as_u32(t))) });
         // every call passes a distinct name: "first name wins" is then observable
-        scn.facts.push(Fact { kind, x, name: format!("{}{}#{}", kind.name(), x, i + 1), term });
+        scn.facts.push(Fact { kind, x, name: rec_name(&c.name, kind, x, i as u32 + 1), term });
     }
     let e = &line["expect"];
     for t in arr(&e["terms"]) {
@@ -240,7 +255,7 @@ pub fn from_tlc(line: &Value, c: &Concretisation) -> (Scenario, Expected) {
             exp.recs[k as usize].insert(
                 x,
                 ExpRec {
-                    name: format!("{}{}#{}", k.name(), x, tag),
+                    name: rec_name(&c.name, k, x, tag),
                     hpos: u32_list(&r["hpos"]).into_iter().map(|m| c.get(m)).collect(),
                 },
             );
